@@ -12,6 +12,7 @@ package c10
 
 import (
 	"bytes"
+	"crypto/tls"
 	"context"
 	"fmt"
 	"hash"
@@ -219,7 +220,7 @@ var menus = map[string][]string{
 	"groupreader": {"fetch", "fetch", "commit", "commit", "read", "offset", "lag", "stats", "config", "envRebalance", "envRebalance", "close", "close"},
 	"conn": {"setDeadline", "setReadDeadline", "setWriteDeadline", "offset", "seekStart", "seekEnd", "seekAbs", "seekCur", "firstOffset", "lastOffset", "readOffsets",
 		"write", "writeCompressed", "readBatch", "readMessage", "read", "partitions", "brokers", "controller", "apiVersions", "broker", "addrs", "createTopics", "deleteTopics", "setRequiredAcks", "close"},
-	"batch":    {"read", "read", "readMessage", "readMessage", "offset", "hwm", "throttle", "partition", "err", "close"},
+	"batch":    {"read", "read", "readShort", "readMessage", "readMessage", "offset", "hwm", "throttle", "partition", "err", "close"},
 	"client":   {"metadata", "listOffsets", "produce", "fetch", "createTopics", "offsetFetch", "offsetCommit", "listGroups", "describeGroups", "apiVersions", "consumerOffsets", "closeIdle", "envAddBroker", "envDropBroker", "envMoveLeader"},
 	"balancer": {"balance", "balance", "balanceNilKey", "balanceOtherPartitions"},
 	"codec":    {"roundtrip", "roundtrip", "compress", "decompress", "name", "doubleClose"},
@@ -231,7 +232,7 @@ var variants = map[string][]string{
 	"groupreader": {"sync-commit", "interval-commit"},
 	"conn":        {"leader"},
 	"batch":       {"v2", "v1-gzip", "v2-snappy"},
-	"client":      {"ttl-short", "ttl-long"},
+	"client":      {"ttl-short", "ttl-long", "tls-two-addresses"},
 	"balancer":    {"roundrobin", "roundrobin-chunk3", "leastbytes", "hash", "hash-custom-hasher", "refhash", "crc32", "crc32-consistent", "murmur2", "murmur2-consistent"},
 	"codec":       {"gzip", "snappy", "snappy-unframed", "lz4", "zstd"},
 }
@@ -254,6 +255,7 @@ type env struct {
 	conn *kafka.Conn
 	b    *kafka.Batch
 	c    *kafka.Client
+	c2   *kafka.Client // second cluster address on the same Transport (variant tls-two-addresses)
 	bal  kafka.Balancer
 	cod  compress.Codec
 	blob []byte // codec: a stream compressed beforehand
@@ -388,6 +390,15 @@ func setup(tb ev.TB, p Program) *env {
 		}
 		e.tr = &kafka.Transport{Dial: e.nw.Dial, MetadataTTL: ttl, DialTimeout: 2 * time.Second, IdleTimeout: 5 * time.Second, ClientID: "c10"}
 		e.c = &kafka.Client{Addr: kafka.TCP(addr), Transport: e.tr, Timeout: 2 * time.Second}
+		if p.Variant == "tls-two-addresses" {
+			// One Transport with a TLS configuration that names no server, used for two cluster addresses.  The fake brokers do
+			// not speak TLS: every connection attempt fails in the handshake, which is all the shared configuration needs.
+			e.cl.AddBroker(2, "")
+			e.tr.TLS = &tls.Config{InsecureSkipVerify: true}
+			e.tr.DialTimeout = 150 * time.Millisecond
+			e.c.Timeout = 300 * time.Millisecond
+			e.c2 = &kafka.Client{Addr: kafka.TCP("b2.fake:9092"), Transport: e.tr, Timeout: 300 * time.Millisecond}
+		}
 	}
 	return e
 }
@@ -609,6 +620,8 @@ func (e *env) exec(thread int, op Op) {
 		switch op.Name {
 		case "read":
 			b.Read(make([]byte, 64))
+		case "readShort":
+			b.Read(make([]byte, 1+op.Arg%3)) // shorter than the value: io.ErrShortBuffer, the message is skipped
 		case "readMessage":
 			b.ReadMessage()
 		case "offset":
@@ -627,6 +640,17 @@ func (e *env) exec(thread int, op Op) {
 	case "client":
 		ctx, cancel := short(2000)
 		defer cancel()
+		if e.c2 != nil {
+			// every call needs a connection and fails in the TLS handshake; alternate between the two addresses
+			ctx2, cancel2 := short(300)
+			defer cancel2()
+			cli := e.c
+			if (op.Arg+thread)%2 == 1 {
+				cli = e.c2
+			}
+			cli.Metadata(ctx2, &kafka.MetadataRequest{Topics: []string{"t"}})
+			return
+		}
 		switch op.Name {
 		case "metadata":
 			e.c.Metadata(ctx, &kafka.MetadataRequest{Topics: []string{"t"}})
